@@ -2067,6 +2067,9 @@ class C07(ProverCheck):
         # ignore_errors is toggled at top level only: a toggle inside a region is undone when the region ends
         # (C08), which the unguarded twin cannot mimic
         cfg["set_ie_top_only"] = True
+        # a write to an array that lives outside the region is a Python side effect which a false guard does not
+        # undo (guarded() is not transactional; the block API is the tool for that): not part of the twin comparison
+        cfg["no_aset_in_regions"] = True
         plan = P.generate(rng, cfg, w)
         return {"plan": plan, "seed": rng.randrange(1 << 30)}
 
